@@ -169,6 +169,9 @@ def run(ctx):
     rc = ctx.rng("carry")
     ctx.correspond("flags-carry", lines=[F.carry_walk(rc, pc, pt) for _ in range(ctx.budget(5000, 100000))],
                    classify=F.classify_walk, canon=F.canon_panic)
+    import C06 as C06mod
+    ctx.correspond("gsub-flags", groups=C03mod.gsub_flag_groups(ctx, shim, ctx.rng("gsub-flags"), ctx.budget(150, 3000), 10),
+                   classify=C06mod.gsub_classify, canon=F.canon_panic, only=lambda ln: ln.startswith("gsub "))
     hook_search(ctx, shim, ctx.rng("hook"), ctx.budget(20000, 300000), pc, pt)
     shape_hygiene(ctx, shim, ctx.rng("hygiene"), ctx.budget(48, 400), pc, pt)
     concat_search(ctx, shim, ctx.rng("concat-ot"), ctx.budget(60, 1000), pc, pt, False, "concat-redistribution-ot")
